@@ -54,7 +54,21 @@ mut("C04", "dmevolution-transform-one-point-short", "quantarhei/qm/propagators/d
 mut("C04", "redfield-ops-Ld-not-transformed", "quantarhei/qm/liouvillespace/redfieldtensor.py",
     "                self._Ld[m,:,:] = numpy.dot(S1,numpy.dot(self._Ld[m,:,:], SS))\n", "")
 mut("C04", "previous-operator-not-restored", MAN,
-    "        self.manager.store_current_basis_operator(self.previous_op)\n", "        self.manager.remove_current_basis_operator()\n")
+    "        self.manager.store_current_basis_operator(self._previous_ops.pop())\n", "        self._previous_ops.pop()\n        self.manager.remove_current_basis_operator()\n")
+mut("C04", "context-operator-stored-at-construction", MAN,
+    "        # operators of the enclosing contexts, one per entry of this object\n        self._previous_ops = []\n",
+    "        # operators of the enclosing contexts, one per entry of this object\n        self._previous_ops = []\n        self.manager.store_current_basis_operator(self.op)\n")
+mut("C05", "units-backup-single-slot", MAN,
+    "        self.units_backup = self._units_backups.pop()\n        self.manager.set_current_units(\"energy\",self.units_backup)",
+    "        self._units_backups.pop()\n        self.manager.set_current_units(\"energy\",self.units_backup)")
+mut("C05", "hamiltonian-diagonalize-in-current-units", "quantarhei/qm/hilbertspace/hamiltonian.py",
+    "            with energy_units(\"int\"):\n                SS = super().diagonalize()", "            if True:\n                SS = super().diagonalize()")
+mut("C05", "spline-kept-across-units", "quantarhei/core/dfunction.py",
+    "            or (getattr(self, \"_spline_ends\", None) != ends)):", "            or False):")
+mut("C05", "diabatic-coupling-written-into-callers-list", "quantarhei/builders/molecules.py",
+    "        factor = [val, factor[1]]\n", "        factor[0] = val\n")
+mut("C05", "set-by-interpolation-axis-in-current-units", "quantarhei/spectroscopy/absbase.py",
+    "        with energy_units(\"int\"):\n            waxis = FrequencyAxis(omin, length, step)", "        if True:\n            waxis = FrequencyAxis(omin, length, step)")
 mut("C04", "copy-not-registered", MAN,
     "        if cb in self.manager.basis_registered:\n            self.manager.register_with_basis(cb, new)",
     "        if False:\n            self.manager.register_with_basis(cb, new)")
@@ -98,7 +112,7 @@ mut("C05", "coupling-getter-not-converted", "quantarhei/builders/aggregate_base.
     "        coupling = self.resonance_coupling[i,j]\n        return self.convert_energy_2_current_u(coupling)",
     "        coupling = self.resonance_coupling[i,j]\n        return coupling")
 mut("C05", "set-rwa-leaves-internal-units", "quantarhei/qm/hilbertspace/hamiltonian.py",
-    "        with energy_units(\"int\"):", "        self.manager.set_current_units(\"energy\", \"int\")\n        if True:")
+    "        # average energies in every block\n        with energy_units(\"int\"):", "        # average energies in every block\n        self.manager.set_current_units(\"energy\", \"int\")\n        if True:")
 
 # ------------------------------------------------------------------ C08
 ESO = "quantarhei/qm/liouvillespace/evolutionsuperoperator.py"
@@ -244,7 +258,10 @@ mut("C20", "level-test-inverted", PA,
     "    if config.parallel_level==1:\n        \n        config.inparallel_entered = True\n        \n        rng = _calculate_ranges(config, start, stop)",
     "    if config.parallel_level!=1:\n        \n        config.inparallel_entered = True\n        \n        rng = _calculate_ranges(config, start, stop)")
 mut("C20", "allreduce-copies-first-row-only", PA,
-    "            self.comm.Allreduce(A, B, op=MPI.SUM)\n            A[:,:] = B", "            self.comm.Allreduce(A, B, op=MPI.SUM)\n            A[0,:] = B[0,:]")
+    "            self.comm.Allreduce(S, B, op=MPI.SUM)\n            A[...] = B", "            self.comm.Allreduce(S, B, op=MPI.SUM)\n            A[0,...] = B[0,...]")
+mut("C20", "allreduce-receives-into-c-ordered-buffer-of-raw-memory", PA,
+    "            S = numpy.ascontiguousarray(A)\n            B = numpy.zeros(S.shape, dtype=S.dtype)\n            self.comm.Allreduce(S, B, op=MPI.SUM)",
+    "            S = A\n            B = numpy.zeros(S.shape, dtype=S.dtype)\n            self.comm.Allreduce(S, B, op=MPI.SUM)")
 mut("C20", "array-index-not-distributed-again", PA,
     "            for a in range(rng[0],rng[1]):\n                lst.append((a, array[a]))\n            return lst             \n        else:\n            return array[rng[0]:rng[1]]",
     "            for a in range(array.shape[0]):\n                lst.append((a, array[a]))\n            return lst             \n        else:\n            return array[rng[0]:rng[1]]")
